@@ -130,9 +130,12 @@ def c_lcfg(K):
         items.append("l_cmp_ops := Some (fun o => match o with CLt => %s | CLte => %s | CGt => %s | CGte => %s | CNeq => %s end)" % tuple(a))
     for t in ("l_eq", "l_neq", "l_sw", "l_nsw", "l_ew", "l_new", "l_ct", "l_nct", "l_wm", "l_csm", "l_csw", "l_ncsw", "l_cew", "l_ncew",
               "l_cct", "l_ncct", "l_re", "l_nre", "l_cidr", "l_ncidr", "l_cmp", "l_null", "l_exists", "l_nexists", "l_ff", "l_ffsw",
-              "l_ffew", "l_ffct", "l_ts", "l_ub_str", "l_ub_num", "l_ub_re"):
+              "l_ffew", "l_ffct", "l_ts", "l_ub_str", "l_ub_num", "l_ub_re", "l_in"):
         items.append("%s := %s" % (t, c_tpl(K[t])))
     items.append("l_ts_map := %s" % clist("(%d, %s)" % (i, cstr(x)) for i, x in K["l_ts_map"]))
+    items.append("l_or_in_op := %s" % cstr(K["l_or_in_op"] or ""))
+    items.append("l_and_in_op := %s" % cstr(K["l_and_in_op"] or ""))
+    items.append("l_list_sep := %s" % c_ostr(K["l_list_sep"]))
     return "{| " + "; ".join(items) + " |}"
 
 
@@ -269,3 +272,49 @@ def py_oracle_leaf(c, r):
         d = [(a, b) for a, b in zip(r["sib0"], r["sib1"]) if a != b]
         return "sibling leaves render differently after the negated-template context: %r" % (d[:2],)
     return None
+
+
+# ---------------------------------------------------------------------------------------------------
+# suite inlist
+def gen_inlist(tier, rng):
+    n = 400 if tier == "quick" else 3000
+    out = []
+    base = gen_k(random.Random(1)); base.update(qpat=None)
+    for f in FIELDS:
+        out.append({"cfg": {"family": "vb", "k": base}, "field": f, "disj": True,
+                    "values": [{"t": "str", "s": "a"}, {"t": "num", "n": 1}, {"t": "str", "s": "b*"}]})
+    for s in STRS:
+        out.append({"cfg": {"family": "vb", "k": base}, "field": "f", "disj": False,
+                    "values": [{"t": "str", "s": s}, {"t": "str", "s": "x"}]})
+        out.append({"cfg": {"family": "vb", "k": base}, "field": "f", "disj": True, "values": [{"t": "str", "s": s}]})
+    while len(out) < n:
+        cfg = {"family": "vb", "k": gen_k(rng)} if rng.random() < 0.8 else {"family": "test", "attrs": rng.choice(TEST_ATTRS)}
+        vals = []
+        for _ in range(rng.randint(1, 4)):
+            if rng.random() < 0.7:
+                vals.append({"t": "str", "s": gen_str(rng)})
+            else:
+                vals.append({"t": "num", "n": rng.choice(NUMS)})
+        out.append({"cfg": cfg, "field": rng.choice(FIELDS) if rng.random() < 0.5 else "f", "disj": rng.random() < 0.6, "values": vals})
+    return out
+
+
+def inlist_to_coq(c, r):
+    if "exc" in r:
+        return None
+    K = c_lcfg(r["K"])
+    if K is None:
+        return None
+    kk = copt(c_vbk(c["cfg"]["k"])) if c["cfg"]["family"] == "vb" else "None"
+    vals = []
+    for (val, pm) in r["vals"]:
+        if val[0] == "num":
+            vals.append("(LNum %s, %s)" % (cstr(val[1]), cbool(pm)))
+        else:
+            vals.append("(LStr %s %s, %s)" % (cbool(val[0] == "cstr"), c_parts(val[1]), cbool(pm)))
+    return ("{| ic_K := %s; ic_k := %s; ic_extra := %s; ic_f := %s; ic_fo := %s; ic_disj := %s; ic_vals := %s; ic_r := %s |}"
+            % (K, kk, cstr("".join(r["extra"])), cstr(c["field"]), c_fo(r["fo"]), cbool(c["disj"]), clist(vals), c_outcome(r["r"])))
+
+
+def stratum_inlist(c, r):
+    return "%s/%s/%d" % (c["cfg"]["family"], "or" if c["disj"] else "and", len(c["values"]))
